@@ -196,7 +196,8 @@ class _CallPatchX86(_CallPatchImpl):
                 else:
                     raise NotImplementedError("unknown file format")
             elif isinstance(arg_value, int):
-                arg_str = str(arg_value)
+                # Format as a number: bool is an int, and str(True) is "True".
+                arg_str = f"{arg_value:d}"
             else:
                 assert_never(arg_value)
 
